@@ -321,6 +321,92 @@ def opCluster (args : List String) : String :=
     | _, _ => "bad-op"
   | _ => "bad-op"
 
+section sbc
+open Matid.SBC
+
+def parseDots? (s : String) : Option (List Nat) := if s == "" || s == "-" then some [] else (s.splitOn ".").mapM String.toNat?
+def showDots (l : List Nat) : String := if l.isEmpty then "-" else ".".intercalate (l.map toString)
+
+def sortNat (l : List Nat) : List Nat := l.foldl (fun acc x => Matid.Select.insertSorted x acc) []
+
+def parseClu? (s : String) : Option Clu :=
+  match s.splitOn ":" with
+  | [i, sp, rs, rid, m] => do
+    pure { idx := ← parseDots? i, species := ← parseDots? sp, rsize := ← rs.toNat?, rid := ← rid.toNat?, merged := m == "1" }
+  | _ => none
+
+def showClu (c : Clu) : String :=
+  showDots (sortNat c.idx) ++ ":" ++ showDots (sortNat c.species) ++ ":" ++ toString c.rsize ++ ":" ++ toString c.rid ++ ":" ++ (if c.merged then "1" else "0")
+
+def parseMatrix? (s : String) : Option (List (List Bool)) :=
+  if s == "-" then some [] else (s.splitOn ",").mapM fun row => some (row.toList.map (· == '1'))
+
+def matGet (m : List (List Bool)) (i j : Nat) : Bool := (m.getD i []).getD j false
+
+/-- components of the bonding relation restricted to the atoms of `idx` (given in that order) -/
+def componentsOf (bonded : List (List Bool)) (idx : List Nat) : List (List Nat) :=
+  let adj := idx.map fun i => idx.map fun j => i == j || matGet bonded i j
+  let lab := Matid.Dim.components adj
+  let labels := sortNat lab
+  labels.map fun l => (idx.zip lab).filterMap fun p => if p.2 == l then some p.1 else none
+
+/-- `sbcmerge <numbers> <thr> <clusters ;>` -/
+def opSbcMerge (args : List String) : String :=
+  match args with
+  | [nums, thrS, cl] =>
+    match parseList? parseNat? nums, parseRat? thrS, (if cl == "-" then some [] else (cl.splitOn ";").mapM parseClu?) with
+    | some numbers, some thr, some cs => ";".intercalate ((mergeClusters numbers thr cs).map showClu)
+    | _, _, _ => "bad-op"
+  | _ => "bad-op"
+
+/-- `sbclocalize <n> <near matrix> <index lists ;>` -/
+def opSbcLocalize (args : List String) : String :=
+  match args with
+  | [nS, nearS, cl] =>
+    match nS.toNat?, parseMatrix? nearS, (if cl == "-" then some [] else (cl.splitOn ";").mapM parseDots?) with
+    | some n, some near, some cs => ";".intercalate ((localize (matGet near) n cs).map fun c => showDots (sortNat c))
+    | _, _, _ => "bad-op"
+  | _ => "bad-op"
+
+/-- `sbcclean <bonded matrix> <index lists ;>` : per cluster the admissible results separated by '|', or `dropped` -/
+def opSbcClean (args : List String) : String :=
+  match args with
+  | [bS, cl] =>
+    match parseMatrix? bS, (if cl == "-" then some [] else (cl.splitOn ";").mapM parseDots?) with
+    | some bonded, some cs =>
+      ";".intercalate (cs.map fun c =>
+        let alts := cleanOne (componentsOf bonded c)
+        if alts.isEmpty then "dropped" else "|".intercalate (alts.map fun a => showDots (sortNat a)))
+    | _, _ => "bad-op"
+  | _ => "bad-op"
+
+def parseFinder? (s : String) : Option FinderOut :=
+  match s.splitOn "/" with
+  | [seed, basis, rid, mask] => do
+    let b ← if basis == "none" then some none else (parseDots? basis).map some
+    pure { seed := ← seed.toNat?, basis := b, rid := ← rid.toNat?, mask := ← parseDots? mask }
+  | _ => none
+
+/-- `sbcrun <numbers> <merge thr> <near matrix> <bonded matrix> <history ;>` : the whole pipeline on a recorded
+history of finder outputs -/
+def opSbcRun (args : List String) : String :=
+  match args with
+  | [nums, thrS, nearS, bS, hist] =>
+    match parseList? parseNat? nums, parseRat? thrS, parseMatrix? nearS, parseMatrix? bS, (if hist == "-" then some [] else (hist.splitOn ";").mapM parseFinder?) with
+    | some numbers, some thr, some near, some bonded, some history =>
+      let (rem, cs0) := driver numbers history
+      let cs1 := mergeClusters numbers thr cs0
+      let idx2 := localize (matGet near) numbers.length (cs1.map (·.idx))
+      let out := (cs1.zip idx2).filterMap fun (c, ix) =>
+        let alts := cleanOne (componentsOf bonded ix)
+        if alts.isEmpty then none
+        else some ("|".intercalate (alts.map fun a => showDots (sortNat a)) ++ ":" ++ showDots (sortNat c.species) ++ ":" ++ toString c.rid)
+      "rem=" ++ showDots rem ++ " " ++ (if out.isEmpty then "-" else ";".intercalate out)
+    | _, _, _, _, _ => "bad-op"
+  | _ => "bad-op"
+
+end sbc
+
 def step (line : String) : String :=
   match words line with
   | "radii" :: args => opRadii args
@@ -341,6 +427,10 @@ def step (line : String) : String :=
   | "mincell" :: args => opMinCell args
   | "inertia" :: args => opInertia args
   | "cluster" :: args => opCluster args
+  | "sbcmerge" :: args => opSbcMerge args
+  | "sbclocalize" :: args => opSbcLocalize args
+  | "sbcclean" :: args => opSbcClean args
+  | "sbcrun" :: args => opSbcRun args
   | _ => "bad-op"
 
 partial def loop (h : IO.FS.Stream) (out : IO.FS.Stream) : IO Unit := do
